@@ -499,6 +499,15 @@ class C05(Driver):
                     out[num[id(ins)]] = ins["op"]
         return out
 
+    @staticmethod
+    def status_class(st):
+        st = st.lstrip(":")
+        if st in ("dead", "error", "user0", "user1", "user2", "user3", "user4"):
+            return "finished-" + ("dead" if st == "dead" else "error" if st == "error" else "user0-4")
+        if st in ("new", "alive"):
+            return st
+        return "suspended"
+
     def relation(self, par, a, b):
         """where is fiber a relative to fiber b"""
         if a == b:
@@ -579,12 +588,17 @@ class C05(Driver):
                              "(propagate x f) with f :dead makes the running function 'return' without popping its frame; "
                              "inside a callback invoked from C the caller continues on a corrupt stack. " + ctx)
         if A is None and res.outcome != "ok":
-            extra = "/after-refused-resume-of-finished-fiber" if tag == "illegal-resume" else ""
+            extra = "/where-resume-of-finished-fiber-must-be-refused" if tag else ""
             return Violation("C05/run/%s%s" % (res.outcome.split(":")[0], extra), ctx + " log: " + (res.log or "")[-300:].replace("\n", " | "))
-        if tag == "illegal-resume":
-            return Violation("C05/status/resumed-finished-fiber", ctx)
         Et = tokens(E[1]) if E else None
         At = tokens(A[1]) if A else None
+        if tag and A:
+            # the model refused to resume/cancel a finished fiber here; did the runtime go ahead?
+            _, opn, target = tag
+            afid = int(At[0])
+            if (A[0] == "r" and int(At[1]) == opn) or afid == target or \
+                    self.relation(par, target, afid) == "an-ancestor":
+                return Violation("C05/status/resumed-finished-fiber", ctx)
         if A and A[0] == "c":
             n = int(At[1])
             if any(a[0] == "c" and tokens(a[1])[:2] == At[:2] for a in act[:i]):
@@ -602,7 +616,7 @@ class C05(Driver):
                     if Et[2 + j:3 + j] != At[2 + j:3 + j]:
                         if names[j] == "status":
                             return Violation("C05/status/after-%s/expected-%s/got-%s" %
-                                             (op, Et[3].lstrip(":"), (At[3:4] or ["?"])[0].lstrip(":")), ctx)
+                                             (op, self.status_class(Et[3]), self.status_class((At[3:4] or ["?"])[0])), ctx)
                         return Violation("C05/value/%s-after-%s" % (names[j], op), ctx)
             if k == "y":
                 return Violation("C05/value/value-received-by-%s" % op, ctx)
@@ -622,11 +636,13 @@ class C05(Driver):
                 return Violation("C05/status/inspection", ctx)
             return Violation("C05/value/%s" % k, ctx)
         if E is None:
-            return Violation("C05/mask-routing/execution-continued-where-it-should-have-stopped/%s" % A[0], ctx)
+            return Violation("C05/mask-routing/execution-continued-where-it-should-have-stopped", ctx)
         if A is None:
-            return Violation("C05/mask-routing/execution-stopped-early/expected-%s" % E[0], ctx)
+            return Violation("C05/mask-routing/execution-stopped-early", ctx)
         rel = self.relation(par, int(At[0]), int(Et[0]))
-        return Violation("C05/mask-routing/control-went-to-%s/expected-%s/got-%s" % (rel, E[0], A[0]), ctx)
+        if rel == "same-fiber":
+            return Violation("C05/mask-routing/control-went-elsewhere-in-the-same-fiber", ctx)
+        return Violation("C05/mask-routing/control-went-to-%s" % rel, ctx)
 
     # ---------------------------------------------------------------- evidence
     def _model_of(self, plan):
